@@ -82,7 +82,7 @@ def load_known():
 
 def match_known(known, prop, key):
     for k in known:
-        if k.get('kind') == 'finding' and k.get('property') == prop and k.get('key') == key:
+        if k.get('kind') == 'finding' and k.get('property') == prop and (k.get('key') == key or key in k.get('keys', [])):
             return k
     return None
 
@@ -101,6 +101,10 @@ def run_check(modname, tier='quick', seed=0):
     t0 = time.time()
     mod = importlib.import_module(modname)
     prop = mod.PROP
+    if os.path.isdir(REPLAYS):
+        for fn in os.listdir(REPLAYS):
+            if fn.startswith(prop + '-'):
+                os.remove(os.path.join(REPLAYS, fn))
     timeout_ms = int(os.environ.get('PYVC_TIMEOUT_MS', '10000'))
     jobs = [(modname, 'lemma', i, timeout_ms) for i in range(len(getattr(mod, 'LEMMAS', [])))] + \
            [(modname, 'fn', i, timeout_ms) for i in range(len(mod.CONTRACTS))]
